@@ -29,6 +29,20 @@ ORDERS = ["sources_first", "reverse_sources", "dfs", "bfs", "random"]
 
 def gen(rng, i, tier):
     big = tier == "thorough"
+    if i % 4 == 1:
+        # mux-centred layouts shared with C05: inputs that sit BELOW other elements (a converter / regulator / switch
+        # that sleeps in some phase while its source stays live), several sources, mostly with phases - the domain of
+        # the mux subtree is the source of the input that actually feeds it in that phase
+        from . import c05
+
+        lay = c05.layout(rng, rng.choice([2, 3, 4]))
+        lay["phases"] = rng.random() < 0.85
+        pat = [rng.choice([0, 1]) for _ in range(lay["k"])]
+        if lay["phases"] and all(pat):
+            pat[0] = 0
+        spec = c05.realise(lay, pat)
+        return {"spec": spec, "orders": ["as_generated"], "oseed": rng.randrange(1 << 30), "tol": 1e-6, "ta": 25.0,
+                "history": rng.choice(["fresh", "solve_then_phase_conf", "analysed_while_built"]), "hseed": rng.randrange(1 << 30)}
     multi = rng.random() < 0.8
     spec = G.gen_system(
         rng, n_comp=(4, 26 if big else 14), n_src=(2, 4) if multi else (1, 1), mux=0.6 if multi else 0.2,
